@@ -1,10 +1,11 @@
 --------------------------- MODULE MC_ExcelReader ---------------------------
 (* Bounded configurations of ExcelReader.tla.                                 *)
-(* Pool: 23 header instances covering every documented class (two padded      *)
+(* Pool: 24 header instances covering every documented class (two padded      *)
 (* headers, element./elements., repeatable vib_wavenumber / rot_temperature / *)
 (* list.sites, indexed list.w.0/.1 out of index order, dict fields, NASA      *)
 (* indices 0, 6 and 3, statmech_model and the five <mode>_model columns, and  *)
-(* the ordinary header n_degrees that is also a preset key).                  *)
+(* the ordinary header n_degrees that is also a preset key, and an ordinary   *)
+(* numeric column A whose values lie between 2^63 and 2^64).                  *)
 (* A layout is a sequence of pool entries; a sheet is a layout, 1-3 rows and  *)
 (* an emptiness pattern; the value of cell (r, c) is a function of (kind of   *)
 (* the column, r, c): all numeric/string values of a sheet are distinct, so a *)
@@ -36,7 +37,8 @@ Pool == << E(H_name, "str", FALSE),                  \*  1
            E(T_vib_model, "vib", FALSE),             \* 20
            E(T_rot_model, "rot", FALSE),             \* 21
            E(T_elec_model, "elec", FALSE),           \* 22
-           E(T_nucl_model, "nucl", FALSE) >>         \* 23
+           E(T_nucl_model, "nucl", FALSE),           \* 23
+           E(H_A, "big", FALSE) >>                   \* 24: values between 2^63 and 2^64
 
 Pick(s, k) == s[(k % Len(s)) + 1]
 NumVal(r, c) == LET n == 100 * r + c IN
@@ -47,10 +49,11 @@ StrVal(r, c) == Str((IF c % 2 = 0 THEN <<32>> ELSE <<>>) \o <<115>> \o NatDigits
                     \o (IF r % 2 = 0 THEN <<32, 32>> ELSE <<>>))
 CellVal(kind, r, c) ==
    CASE kind = "num" -> NumVal(r, c)
+     [] kind = "big" -> Num(DecNorm(100 + 10 * r + c, 17))                       \* 1.11e19 .. 1.35e19
      [] kind = "str" -> StrVal(r, c)
      [] kind = "mix" -> IF (r + c) % 2 = 0 THEN NumVal(r, c) ELSE StrVal(r, c)
      [] kind = "formula" -> Str(Pick(<<F_H2O, F_CH3OH_pad, F_PtCl12, F_CO>>, r + c))
-     [] kind = "statmech" -> Str(Pick(<<V_IdealGas, V_placeholder_pad, V_Harmonic, T_electronic, T_constant>>, r + c))
+     [] kind = "statmech" -> Str(Pick(<<T_electronic, T_constant, V_IdealGas, V_placeholder_pad, V_Harmonic>>, r + c))
      [] kind = "trans" -> Str(Pick(<<T_FreeTrans, T_EmptyMode>>, r + c))
      [] kind = "vib" -> Str(Pick(<<T_HarmonicVib, T_QRRHOVib, T_EinsteinVib, T_DebyeVib, T_emptymode>>, r + c))
      [] kind = "rot" -> Str(Pick(<<T_RigidRotor, V_EmptyModeUpper>>, r + c))
@@ -65,40 +68,45 @@ Sheet(lay, nr, pat) ==
    [headers |-> [k \in 1..Len(lay) |-> Pool[lay[k]].h],
     rows |-> [rr \in 1..nr |-> [k \in 1..Len(lay) |->
                  IF pat[rr][k] THEN CellVal(Pool[lay[k]].kind, rr, k) ELSE EmptyCell]]]
-SheetsOf(lays, rowCounts) ==
-   UNION {UNION {{Sheet(l, nr, p) : p \in Patterns(nr, Len(l))} : nr \in rowCounts} : l \in lays}
-
 \* structured emptiness masks for the wide layouts
 Mask(k, nc) == [j \in 1..nc |-> CASE k = 1 -> TRUE [] k = 2 -> j % 2 = 1 [] k = 3 -> j % 2 = 0
                                   [] k = 4 -> j = 1 [] k = 5 -> j = nc [] OTHER -> j # 3]
-MaskedSheets(lays, nr) == UNION {{Sheet(l, nr, [rr \in 1..nr |-> Mask(m[rr], Len(l))]) :
-                                     m \in [1..nr -> 1..6]} : l \in lays}
+\* a group: a layout, a row count and how the emptiness patterns are drawn
+G(lay, nr, how) == [lay |-> lay, nr |-> nr, how |-> how]
+MCGroupSheets(g) ==
+   IF g.how = "all" THEN {Sheet(g.lay, g.nr, p) : p \in Patterns(g.nr, Len(g.lay))}
+   ELSE IF g.how = "masks" THEN {Sheet(g.lay, g.nr, [rr \in 1..g.nr |-> Mask(m[rr], Len(g.lay))]) :
+                                   m \in [1..g.nr -> 1..6]}
+   ELSE {[headers |-> [k \in 1..Len(g.lay) |-> g.lay[k]],                     \* "texts": given headers
+          rows |-> <<[k \in 1..Len(g.lay) |-> NumVal(1, k)]>>]}
+GroupsOf(lays, rowCounts) == {G(l, nr, "all") : l \in lays, nr \in rowCounts}
+
 Wide == { <<1, 18, 20, 8, 8>>, <<8, 4, 8, 5, 8>>, <<15, 17, 16, 2, 3>>, <<10, 13, 10, 14, 10>>,
           <<19, 21, 22, 23, 18>>, <<7, 12, 11, 9, 9>>, <<3, 18, 1, 6, 23>>, <<18, 19, 20, 3, 22>> }
 Core == {18, 20, 3, 8, 10, 4}          \* the columns that interact most
 Core2 == Core \cup {5, 7, 13, 14, 19, 23}
 
-\* TLC evaluates every parameterless constant definition at start-up, so the sheet sets take a
-\* dummy argument and the configuration chooses one with the constant SetName
-\* (quick | thorough | small | wide).
-QuickSheets(x) == SheetsOf(Layouts(1..23, 1, 2), {1, 2})
-                  \cup SheetsOf(Layouts(Core, 3, 3), {2})
-                  \cup SheetsOf(Layouts(Core, 2, 2), {3})
-                  \cup MaskedSheets(Wide, 3)
-ThoroughSheets(x) == QuickSheets(x) \cup SheetsOf(Layouts(Core2, 3, 3), {2})
-                     \cup SheetsOf(Layouts(Core, 4, 4), {2})
-SmallSheets(x) == SheetsOf(Layouts({1, 8, 18, 20, 23}, 1, 2), {1, 2})     \* for the rejected variants
+\* TLC evaluates every parameterless constant definition at start-up, so the group sets take a
+\* dummy argument and the configuration chooses one with the constant SetName.
+QuickGroups(x) == GroupsOf(Layouts(1..24, 1, 2), {1, 2})
+                  \cup GroupsOf(Layouts(Core, 3, 3), {2})
+                  \cup GroupsOf(Layouts(Core, 2, 2), {3})
+                  \cup {G(l, 3, "masks") : l \in Wide}
+ThoroughGroups(x) == QuickGroups(x) \cup GroupsOf(Layouts(Core2, 3, 3), {2})
+                     \cup GroupsOf(Layouts(Core, 4, 4), {2})
+\* the sheets the thorough tier replays into the code (a subset of ThoroughGroups)
+ThoroughCaseGroups(x) == QuickGroups(x) \cup GroupsOf(Layouts(Core \cup {5, 13, 23}, 3, 3), {2})
+SmallGroups(x) == GroupsOf(Layouts({1, 8, 18, 20, 23}, 1, 2), {1, 2})     \* for the rejected variants
 
 \* ---- headers outside the documented forms (MC_ExcelReader_wide.cfg: expected to be rejected)
 WideHeaders == {W_n_elements_extra, W_reformulated, W_natoms, W_nasa_note, W_playlist_x,
                 W_list_vib_wavenumber_x, W_dict_a, W_vib_wavenumber_2, W_list_a_b_c,
                 W_dict_list_a_b, W_list_dict_a, W_element_list_O}
-WideSheets(x) == {[headers |-> <<h>>, rows |-> <<<<NumVal(1, 1)>>>>] : h \in WideHeaders}
-                 \cup {[headers |-> <<H_list_w_0, H_list_w_0>>, rows |-> <<<<NumVal(1, 1), NumVal(1, 2)>>>>]}
-MCSheets == CASE SetName = "quick" -> QuickSheets(0) [] SetName = "thorough" -> ThoroughSheets(0)
-              [] SetName = "small" -> SmallSheets(0) [] SetName = "wide" -> WideSheets(0)
+WideGroups(x) == {G(<<h>>, 1, "texts") : h \in WideHeaders} \cup {G(<<H_list_w_0, H_list_w_0>>, 1, "texts")}
+MCGroups == CASE SetName = "quick" -> QuickGroups(0) [] SetName = "thorough" -> ThoroughGroups(0)
+              [] SetName = "thoroughcases" -> ThoroughCaseGroups(0)
+              [] SetName = "small" -> SmallGroups(0) [] SetName = "wide" -> WideGroups(0)
 \* printed by the wide configuration: the header names on which the substring chain and the
 \* documented forms disagree (as pandas names them)
-ChainReport == First /\ ImplClasses(sheet.headers) # DocClasses(sheet.headers)
-               => PrintT(<<"CHAIN", sheet.headers, DocClasses(sheet.headers), ImplClasses(sheet.headers)>>)
+ChainReport == First /\ im # cl => PrintT(<<"CHAIN", sheet.headers, cl, im>>)
 =============================================================================
